@@ -1,6 +1,7 @@
 import Sif.Driver.Util
 import Sif.Spec.C20
 import Sif.Generated.DispConsts
+import Sif.Generated.DispHooks
 /-
   Driver side of the C20 families.  State of family `mint`: the model's MintState plus the
   configuration read from the `mint.cfg` line (module address, whether the ecosystem pool is blocked).
@@ -60,6 +61,17 @@ def handleMint (st : IssueSt) : List String → Option (IssueSt × String)
       let b := st.ms.bank
       let b' := (b.setBal a rowan (b.bal a rowan + amt)).setSup rowan (b.sup rowan + amt)
       some ({ st with ms := { st.ms with bank := b' } }, "ok")
+  | ["mint.addsupply", amt] => do
+      let amt ← parseNat amt
+      let b := st.ms.bank
+      some ({ st with ms := { st.ms with bank := b.setSup rowan (b.sup rowan + amt) } }, "ok")
+  | ["mint.appbegin", _h, _cprev] =>
+      -- BeginBlock of the whole application: the BeginBlocker runs once per entry of SetOrderBeginBlockers
+      let k := (Sif.Generated.DispHooks.beginBlockers.filter
+        (fun p => "github.com/Sifchain/sifnode/x/dispensation".toList.isPrefixOf p.toList)).length
+      match runBlocks st.cfg (blockedOf st) k st.ms with
+      | .ok ms' => let st' := { st with ms := ms' }; some (st', showMint st')
+      | .error _ => some (st, "panic")
   | ["mint.begin", _h, _cprev] =>
       match beginBlocker st.cfg (blockedOf st) st.ms with
       | .ok ms' => let st' := { st with ms := ms' }; some (st', showMint st')
@@ -117,9 +129,17 @@ def handleRewards (st : IssueSt) : List String → Option (IssueSt × String)
       some (st, toString (Sif.Spec.C20.rewardsCumOK st.rw.accu0 st.rw.entitledSoFar totalMinted accuNow))
   | _ => none
 
+/-- a node restart is not an operation of the model: its state is exactly the stored counters -/
+def handleRestart (st : IssueSt) : List String → Option (IssueSt × String)
+  | ["restart", _h] => some (st, s!"c={showCounter st.ms.counter} accu={st.rw.accu}")
+  | _ => none
+
 def handleIssue (st : IssueSt) (toks : List String) : Option (IssueSt × String) :=
   match handleMint st toks with
   | some r => some r
-  | none => handleRewards st toks
+  | none =>
+    match handleRewards st toks with
+    | some r => some r
+    | none => handleRestart st toks
 
 end Sif.Drv
